@@ -26,6 +26,8 @@ def parseOp : List String → Option Op
   | ["cu", t, h] => do pure (.current (← t.toNat?) (hk (← h.toNat?)))
   | ["oc", t, h, h2] => do pure (.orCurrent (← t.toNat?) (hk (← h.toNat?)) (hk (← h2.toNat?)))
   | ["in", h, f] => do pure (.instrument (hk (← h.toNat?)) (fk (← f.toNat?)))
+  | ["in", h, f, _k] => do pure (.instrument (hk (← h.toNat?)) (fk (← f.toNat?)))      -- the inner future owns handle k (see `df`)
+  | ["df", t, f, k] => do pure (.dropFutureHolding (← t.toNat?) (fk (← f.toNat?)) (hk (← k.toNat?)))
   | ["po", t, f] => do pure (.poll (← t.toNat?) (fk (← f.toNat?)))
   | ["df", t, f] => do pure (.dropFuture (← t.toNat?) (fk (← f.toNat?)))
   | ["sd", t, c] => do pure (.setDefault (← t.toNat?) (if c == "-" then none else c.toNat?))
